@@ -523,10 +523,18 @@ func c11Unreadable(cases string, res *Result) {
 	os.WriteFile(filepath.Join(root, "first", "main.twig"), []byte("a[{% include 'part.twig' ignore missing %}]b"), 0o644)
 	os.WriteFile(filepath.Join(root, "first", "plain.twig"), []byte("a[{% include 'part.twig' %}]b"), 0o644)
 	os.WriteFile(filepath.Join(root, "first", "gone.twig"), []byte("a[{% include 'nothere.twig' ignore missing %}]b"), 0o644)
+	// the same through relative names, and a template that exists and does not parse
+	os.MkdirAll(filepath.Join(root, "first", "sub", "dir.twig"), 0o755)
+	os.WriteFile(filepath.Join(root, "first", "sub", "bad.twig"), []byte("x{% if %}y"), 0o644)
+	os.WriteFile(filepath.Join(root, "first", "sub", "rel_bad.twig"), []byte("a[{% include './bad.twig' ignore missing %}]b"), 0o644)
+	os.WriteFile(filepath.Join(root, "first", "sub", "rel_dir.twig"), []byte("a[{% include './dir.twig' ignore missing %}]b"), 0o644)
+	os.WriteFile(filepath.Join(root, "first", "sub", "rel_up.twig"), []byte("a[{% include '../part.twig' ignore missing %}]b"), 0o644)
+	os.WriteFile(filepath.Join(root, "first", "sub", "rel_computed.twig"), []byte("a[{% include './' ~ 'bad.twig' ignore missing %}]b"), 0o644)
+	os.WriteFile(filepath.Join(root, "first", "abs_bad.twig"), []byte("a[{% include 'sub/bad.twig' ignore missing %}]b"), 0o644)
 	for _, paths := range [][]string{{filepath.Join(root, "first")}, {filepath.Join(root, "first"), second}} {
 		eng := twig.New()
 		eng.RegisterLoader(twig.NewFileSystemLoader(paths))
-		for _, name := range []string{"main.twig", "plain.twig"} {
+		for _, name := range []string{"main.twig", "plain.twig", "sub/rel_bad.twig", "sub/rel_dir.twig", "sub/rel_up.twig", "sub/rel_computed.twig", "abs_bad.twig"} {
 			c := Case{"stream": "c11-unreadable", "template": name, "search paths": len(paths)}
 			res.Hist["stream:c11-unreadable"]++
 			res.Evaluations++
@@ -535,7 +543,7 @@ func c11Unreadable(cases string, res *Result) {
 			case err == nil:
 				res.add(Finding{Kind: "oracle", Where: "c11-unreadable/" + name, Case: c, Expected: "an error: the included entry exists and cannot be read", Observed: "output " + strconv.Quote(out),
 					Detail: "a template that exists but cannot be read was turned into empty output"})
-			case errors.Is(err, twig.ErrTemplateNotFound) && name == "main.twig":
+			case errors.Is(err, twig.ErrTemplateNotFound) && name != "plain.twig":
 				res.add(Finding{Kind: "oracle", Where: "c11-unreadable/" + name, Case: c, Expected: "an error other than template-not-found", Observed: err.Error(),
 					Detail: "a template that exists but cannot be read is reported as missing (which ignore missing would then hide)"})
 			}
